@@ -35,7 +35,7 @@ def main():
             readme += open(os.path.join(out, "demo", f), errors="replace").read()
     demo_files = [f for f in os.listdir(os.path.join(out, "demo")) if f.endswith(".go")]
     # destination package: the ./pkg/... argument of the `go test` command in the note
-    cands = re.findall(r"\./((?:pkg|cmd)/[A-Za-z0-9_/-]+)", readme)
+    cands = re.findall(r"go test[^\n]*?\./((?:pkg|cmd)/[A-Za-z0-9_/-]+)", readme) or re.findall(r"\./((?:pkg|cmd)/[A-Za-z0-9_/-]+)", readme)
     dest = cands[-1].rstrip("/") if cands else None
     m2 = re.search(r"-run[ =]+['\"]?([A-Za-z0-9_|^$().]+)", readme)
     run = m2.group(1) if m2 else "Demo"
